@@ -1,6 +1,7 @@
 package main
 
 import (
+	"unicode"
 	"strconv"
 	"fmt"
 	"sort"
@@ -134,7 +135,9 @@ var identPool = []string{"a", "b", "c", "id", "name", "val", "t1", "t2", "tbl", 
 
 func (g *gen) identName() string {
 	if g.r.Chance(1, 12) {
-		return []string{"my col", "sel;ect", "ta'ble", "ünï", "a.b", "SELECT"}[g.r.Intn(6)]
+		// (names of letters outside ASCII are plain identifiers too - also those that Unicode case
+		// mapping, but not ASCII case folding, turns into a keyword: dotless i, long s)
+		return []string{"my col", "sel;ect", "ta'ble", "ünï", "a.b", "SELECT", "ın", "lımıt", "ſet", "maſk", "größe"}[g.r.Intn(11)]
 	}
 	return identPool[g.r.Intn(len(identPool))]
 }
@@ -143,11 +146,18 @@ func (g *gen) identName() string {
 func (g *gen) ident(name string) string {
 	plain := true
 	for i, c := range name {
-		if !(c == '_' || (c >= 'a' && c <= 'z') || (c >= 'A' && c <= 'Z') || (i > 0 && c >= '0' && c <= '9')) {
+		if !(c == '_' || unicode.IsLetter(c) || (i > 0 && unicode.IsDigit(c))) {
 			plain = false
 		}
 	}
-	if _, isKw := keywordSet[strings.ToUpper(name)]; isKw {
+	// keywords are ASCII words in any letter case
+	asciiUpper := strings.Map(func(c rune) rune {
+		if c >= 'a' && c <= 'z' {
+			return c - 32
+		}
+		return c
+	}, name)
+	if _, isKw := keywordSet[asciiUpper]; isKw {
 		plain = false
 	}
 	if plain && !g.r.Chance(1, 15) {
